@@ -117,6 +117,16 @@ def add_extras(case, recipe, root, exp, res):
         os.symlink("loop_a", root / "links" / "loop_b")
         os.symlink("..", root / "links" / "up")
         res.cell("extra:symlinks-dangling-and-loops")
+    if case["k"] % 5 == 2:
+        # LicenseRef- followed by a character that an idstring cannot hold: an unknown identifier, in the file and as a text
+        (root / "badref.py").write_text("# SPDX-FileCopyrightText: 2011 Bad Ref\n# SPDX-License-Identifier: LicenseRef-my_lic\nb = 1\n")
+        (root / "LICENSES").mkdir(exist_ok=True)
+        (root / "LICENSES" / "LicenseRef-my_lic.txt").write_text("text\n")
+        exp["covered"].add("badref.py")
+        exp["bad_licenses"].setdefault("LicenseRef-my_lic", set()).update({"badref.py", "LICENSES/LicenseRef-my_lic.txt"})
+        exp["used_licenses"].add("LicenseRef-my_lic")
+        exp["compliant"] = False
+        res.cell("extra:licenseref-with-illegal-character")
     if case["k"] % 5 == 3:
         # blank-separated words that are no operator: one (unknown) identifier, named as bad and as missing - the file is read
         (root / "words.py").write_text("# SPDX-FileCopyrightText: 2010 Words\n# SPDX-License-Identifier: Apache License 2.0\nw = 1\n")
@@ -239,6 +249,18 @@ def run_case(case, ctx):
             os.environ["XDG_CONFIG_HOME"] = str(xdg)
         unreadable = trees.build(recipe, root, ctx.state["styles"])
         exp = trees.spec_expect(recipe)
+        outer = False
+        if not case["git"] and case["k"] % 9 == 4:
+            # the project is a sub-directory of somebody's larger work tree, whose ignore rules apply to it
+            outer = True
+            trees.git_init(top)
+            (top / ".gitignore").write_text("*.ign\nout/\n")
+            (root / "generated.ign").write_text("no header, ignored\n")
+            (root / "out").mkdir(exist_ok=True)
+            (root / "out" / "built.py").write_text("no header, ignored\n")
+            trees.git(top, "add", "-A", check=False)
+            trees.git(top, "commit", "-q", "-m", "init", check=False)
+            res.cell("extra:work-tree-above-the-project")
         add_extras(case, recipe, root, exp, res)
         FS.fail_open = {p: eacces for p in unreadable}
         FS.begin()
@@ -246,6 +268,8 @@ def run_case(case, ctx):
             cwd, gargs = trees.place_lint(rng_for(ctx.seed, "c01place", case["k"]), root)
             if not gargs and not case["git"] and cwd != str(root):
                 gargs = ["--root", str(root)]
+            if outer and not gargs:
+                gargs = ["--root", str(root)]   # without it the project would be the whole work tree
             args = gargs + (["--include-meson-subprojects"] if case.get("_meson") else []) + ["lint", "--json"]
             if not case["pool"]:
                 args = ["--no-multiprocessing"] + args
